@@ -28,7 +28,7 @@ pub fn fail(sig: impl Into<String>, detail: impl Into<String>) -> Outcome {
 
 impl Rig {
     /// Connects all clients (handshakes run under the case's schedule).
-    pub fn connect(sched_seed: u64, policy: u8, clients: &[ClientSpec], allow_refused_claims: bool) -> Result<Rig, Outcome> {
+    pub fn connect(sched_seed: u64, policy: u8, clients: &[ClientSpec], allow: Allow) -> Result<Rig, Outcome> {
         let mut net = Net::new(Sim::new(sched_seed, Policy::from_u8(policy)));
         for c in clients {
             net.add_client(c.proto, c.tkind);
@@ -47,7 +47,7 @@ impl Rig {
             };
             ctxs.push(ClientCtx::new(i, c.proto, h));
         }
-        let world = World::new(ctxs, allow_refused_claims);
+        let world = World::new(ctxs, allow);
         Ok(Rig { net, world, app_tasks: vec![] })
     }
 
@@ -55,7 +55,7 @@ impl Rig {
         for (i, tp) in tasks.iter().enumerate() {
             let t = TaskCtx::new(i, tp.client);
             self.world.tasks.borrow_mut().push(t.clone());
-            let id = self.net.sim.spawn(&format!("app:t{}:c{}", i, tp.client), run_task(self.world.clone(), t, tp.ops.clone()));
+            let id = self.net.sim.spawn(&format!("app:t{}:c{}", i, tp.client), counted(run_task(self.world.clone(), t, tp.ops.clone())));
             self.app_tasks.push(id);
         }
     }
@@ -82,6 +82,7 @@ impl Rig {
             let (name, p) = (name.clone(), p.clone());
             let mut o = panic_outcome(&name, &p);
             if let Outcome::Fail(f) = &mut o {
+                f.signature = self.qualify(&f.signature);
                 f.detail = self.detail(&f.detail);
             }
             return Err(o);
@@ -93,6 +94,23 @@ impl Rig {
             return Err(fail(sig, self.detail(&detail)));
         }
         Ok(())
+    }
+
+    /// Narrows the signature of failures that are the known consequence of a trigger the case
+    /// actually contained, so that a known finding never masks the same site reached another way.
+    fn qualify(&self, sig: &str) -> String {
+        let w = &self.world;
+        let refused_sites = ["client.rs:593", "client.rs:598", "client.rs:1451", "client.rs:1465"];
+        if sig.starts_with("panic:client-run:aldrin/src/client.rs:") && refused_sites.iter().any(|s| sig.ends_with(s)) && w.stat("claim-refused") > 0 {
+            return format!("{}:after-refused-claim", sig);
+        }
+        if sig.starts_with("panic:app-task:aldrin/src/bus_listener.rs:") && w.stat("listener-polled-after-destroy") > 0 {
+            return format!("{}:after-destroy", sig);
+        }
+        if sig == "livelock:client-run:busy-loop-in-one-poll" && w.stat("late-abort") > 0 {
+            return format!("{}:reply-dropped-during-shutdown", sig);
+        }
+        sig.to_string()
     }
 
     fn step_bound(&mut self, stage: &str, _before: u64) -> Outcome {
@@ -173,6 +191,10 @@ impl Rig {
         }
         for t in tasks.iter() {
             let Some(b) = t.blocked.borrow().clone() else { continue };
+            if b.class == Class::Stream {
+                self.check_peer_has_acted(t, &b)?;
+                continue;
+            }
             if b.class != Class::Request {
                 continue;
             }
@@ -194,6 +216,58 @@ impl Rig {
                 return Err(fail("pending-request:call", self.detail(&format!("at quiescence task t{} is still waiting for the reply of call {} although {} (lost wake-up / deadlock)", t.id, nonce, why))));
             }
             return Err(fail(format!("pending-request:{}", b.what), self.detail(&format!("at quiescence task t{} (client c{}) is still blocked in request-class operation {} (op #{}): lost wake-up / deadlock", t.id, t.client, b.what, b.op_idx))));
+        }
+        Ok(())
+    }
+
+    /// "completes once its peer has acted": a stream-class wait must not be pending at quiescence
+    /// when the harness knows that the peer's action it waits for has happened.
+    fn check_peer_has_acted(&self, t: &TaskCtx, b: &Blocked) -> Result<(), Outcome> {
+        let w = &self.world;
+        let cc = &w.clients[t.client];
+        let alive = |c: usize| !w.clients[c].shutdown_requested.get() && self.net.clients[c].client_result.borrow().is_none();
+        if !alive(t.client) {
+            return Ok(());
+        }
+        match b.aux {
+            Aux::None => {}
+            Aux::Establish(end, ch) => {
+                let cookie = match end {
+                    End::Snd => cc.snd[ch as usize].with(|e| (matches!(e, SndEnd::Pending(_)), e.cookie().0)),
+                    End::Rcv => cc.rcv[ch as usize].with(|e| (matches!(e, RcvEnd::Pending(_)), e.cookie().0)),
+                };
+                if let Some((true, cookie)) = cookie {
+                    let claimed = w.board.borrow().chans.get(&cookie).map(|i| i.claim_ok).unwrap_or(false);
+                    if claimed {
+                        return Err(fail("pending-stream:establish-after-claim", self.detail(&format!("at quiescence task t{} still waits for its channel {} to be established although the other end has been claimed successfully", t.id, cookie))));
+                    }
+                }
+            }
+            Aux::NextItem(ch) => {
+                if w.allow_refused_claims {
+                    return Ok(());
+                }
+                let cookie = cc.rcv[ch as usize].with(|e| (matches!(e, RcvEnd::Est(_)), e.cookie().0));
+                if let Some((true, cookie)) = cookie {
+                    let board = w.board.borrow();
+                    let sent = board.sent.get(&cookie).copied().unwrap_or(0);
+                    let received = board.received.get(&cookie).copied().unwrap_or(0);
+                    let senders_alive = board.senders_of.get(&cookie).map(|s| s.iter().all(|c| alive(*c))).unwrap_or(true);
+                    if sent > received && senders_alive {
+                        return Err(fail("pending-stream:next_item-with-items-sent", self.detail(&format!("at quiescence task t{} waits in next_item on channel {} although {} items were sent and only {} received", t.id, cookie, sent, received))));
+                    }
+                }
+            }
+            Aux::Lifetime(lt) => {
+                let id = cc.lts[lt as usize].with(|l| l.id());
+                if let Some(id) = id {
+                    let board = w.board.borrow();
+                    let owner_gone = board.scope_owner.get(&id).map(|c| !alive(*c)).unwrap_or(false);
+                    if board.ended_scopes.contains(&id) || owner_gone {
+                        return Err(fail("pending-stream:lifetime-after-scope-ended", self.detail(&format!("at quiescence task t{} still waits for the end of lifetime {:?} although its scope has ended", t.id, id))));
+                    }
+                }
+            }
         }
         Ok(())
     }
@@ -223,6 +297,12 @@ pub fn panic_outcome(task: &str, p: &vcommon::Panicked) -> Outcome {
     } else {
         "app-task"
     };
+    if p.0.contains(BUSY_LOOP_MARK) {
+        return fail(
+            format!("livelock:{}:busy-loop-in-one-poll", kind),
+            format!("task {} never returned from a single poll: its transport was polled more than {} times without the future yielding (busy loop; on a single-threaded executor nothing else can run any more)", task, BUSY_LOOP_BOUND),
+        );
+    }
     let sig = if in_sut(&loc) { format!("panic:{}:{}", kind, loc) } else { format!("harness:panic:{}:{}", kind, loc) };
     fail(sig, format!("task {} panicked: {}", task, p.0))
 }
